@@ -21,7 +21,7 @@ use crate::genm::{self, DistMode, GenCfg};
 use crate::util::{hex, unhex, Prng};
 use enum_map::enum_map;
 use maybenot::action::Action;
-use maybenot::constants::STATE_END;
+use maybenot::constants::{STATE_END, STATE_SIGNAL};
 use maybenot::counter::{Counter, Operation};
 use maybenot::dist::{Dist, DistType};
 use maybenot::event::Event;
@@ -1012,7 +1012,45 @@ pub fn gen_scenario(p: &mut Prng, id: String) -> SimCase {
     let to = *p.pick(&[0.0, 1.0, 1000.0, 5000.0, 20_000.0]);
     let start = State::new(enum_map! { Event::NormalSent => tr1(1), Event::TunnelRecv => tr1(1), _ => vec![] });
     let mut delay_ns = *p.pick(DELAYS);
-    let (mc, ms): (Vec<Machine>, Vec<Machine>) = match p.below(6) {
+    let (mc, ms): (Vec<Machine>, Vec<Machine>) = match p.below(8) {
+        6 => {
+            // two machines on one side whose internal timers expire at the same instant; the first one's
+            // TimerEnd makes it signal, and the other machine reacts to the Signal by cancelling or
+            // replacing its own timer at that very instant (its TimerEnd must then not be reported)
+            let dur = *p.pick(&[1000.0, 30_000.0]);
+            let mut a1 = State::new(enum_map! { Event::TimerEnd => vec![Trans(STATE_SIGNAL, 1.0)], _ => vec![] });
+            a1.action = Some(Action::UpdateTimer { replace: false, duration: konst(dur), limit: None });
+            let a = plain_machine(vec![start.clone(), a1]);
+            let mut b1 = State::new(enum_map! { Event::Signal => tr1(2), Event::TimerEnd => tr1(3), _ => vec![] });
+            b1.action = Some(Action::UpdateTimer { replace: false, duration: konst(dur), limit: None });
+            let mut b2 = State::new(enum_map! { Event::TimerEnd => tr1(3), _ => vec![] });
+            b2.action = Some(if p.chance(1, 2) {
+                Action::Cancel { timer: *p.pick(&[Timer::Internal, Timer::All]) }
+            } else {
+                Action::UpdateTimer { replace: true, duration: konst(dur * 3.0), limit: None }
+            });
+            let b = plain_machine(vec![start.clone(), b1, b2, pad_state(false, false, to, tr1(0))]);
+            let pair = if p.chance(1, 2) { vec![a, b] } else { vec![b, a] };
+            if p.chance(1, 2) { (pair, vec![]) } else { (vec![], pair) }
+        }
+        7 => {
+            // the same for action timers: two machines due at the same instant, the first one's PaddingSent
+            // makes it signal and the other cancels or re-issues its pending action on the Signal
+            let mut a1 = State::new(enum_map! { Event::PaddingSent => vec![Trans(STATE_SIGNAL, 1.0)], _ => vec![] });
+            a1.action = Some(Action::SendPadding { bypass: false, replace: false, timeout: konst(to.max(1000.0)), limit: None });
+            let a = plain_machine(vec![start.clone(), a1]);
+            let mut b1 = State::new(enum_map! { Event::Signal => tr1(2), _ => vec![] });
+            b1.action = Some(Action::SendPadding { bypass: false, replace: false, timeout: konst(to.max(1000.0)), limit: None });
+            let mut b2 = State::new(enum_map! { _ => vec![] });
+            b2.action = Some(if p.chance(1, 2) {
+                Action::Cancel { timer: *p.pick(&[Timer::Action, Timer::All]) }
+            } else {
+                Action::SendPadding { bypass: false, replace: false, timeout: konst(to.max(1000.0) * 2.0), limit: None }
+            });
+            let b = plain_machine(vec![start.clone(), b1, b2]);
+            let pair = if p.chance(1, 2) { vec![a, b] } else { vec![b, a] };
+            if p.chance(1, 2) { (pair, vec![]) } else { (vec![], pair) }
+        }
         0 => {
             // two (or three) machines on one side whose actions are due at the same instant
             let k = p.range(2, 3) as usize;
